@@ -932,7 +932,9 @@ def replace_zero(x, val):
 
 
 def array_from_args_gradmaker(argnum, ans, args, kwargs):
-    return lambda g: match_complex(args[argnum], g[argnum - 2])
+    # ndmin may have prepended axes of length one to the stacked result
+    lead = (0,) * (anp.ndim(ans) - anp.ndim(args[argnum]) - 1)
+    return lambda g: match_complex(args[argnum], g[lead + (argnum - 2,)])
 
 
 defvjp_argnum(anp.array_from_args, array_from_args_gradmaker)
